@@ -367,6 +367,20 @@ func (p *Program) verifyFuncOnce(key string, opts *UnitOpts, prereg map[string]s
 		fr.regs[prm] = v
 		fr.params[prm.Name()] = v
 		args = append(args, v)
+		// what a non-nil pointer parameter to a slice, interface, pointer or map cell points to is a well-formed value of the
+		// entry heap (type invariant of the pointee: e.g. a slice with capacity has an allocated array)
+		if pt, ok := prm.Type().Underlying().(*types.Pointer); ok && v.T != "" {
+			switch pt.Elem().Underlying().(type) {
+			case *types.Slice, *types.Interface, *types.Pointer, *types.Map:
+				if l := ex.locOf(v); l != nil && l.Kind == LCell {
+					pv := u.load(st, l)
+					pv.Typ = pt.Elem()
+					if pv.T != "" {
+						u.fact(implies(app("distinct", v.T, "0"), ex.wf(pv, st)))
+					}
+				}
+			}
+		}
 	}
 	fr.entry = st.clone()
 	env := ex.specEnv(fr, st, nil)
